@@ -21,14 +21,28 @@ RULE = ("histories of advertisements over {genuine last+1, last+k (k<100), last,
         "database after a configuration-number bump in the regular advertisement (fake radio, real pair-verify) - with instance ids that change format (all 72 ordered format pairs), disappear "
         "and appear, and in which the broadcast key is REGENERATED (the application re-subscribes and re-populates over a fresh connection: sealings under the previous key, fresh or replayed, "
         "no longer authenticate; a pairing that had no key gets one), interleaved with genuine, replayed, stale, far, forged, cross-accessory and unrouted advertisements and listeners that connect, disconnect and raise; oracle = the harness's "
-        "own bookkeeping of the CURRENT database / last accepted number / connected listeners and an independent reading of the sealed value bytes")
+        "own bookkeeping of the CURRENT database / last accepted number / connected listeners and an independent reading of the sealed value bytes; "
+        "life: histories that START WITH THE APPLICATION PROCESS instead of a pairing that is already set up - a characteristic cache entry with / without a stored state number (None, 0, below / equal to / "
+        "above what the accessory announces) and with / without a broadcast key, then every order (exhaustive to depth 3 quick / 4 thorough, + directed + random) of {the scanner sees the accessory's regular "
+        "advertisement, load_pairing, load_pairing AGAIN on the same controller, restore_accessories_state with a stored number below / equal / above / none and with / without key, restart = a new controller "
+        "over the same cache, accessory events with and without a broadcast}, interleaved with and followed by the advertisement alphabet (repeat of the latest broadcast, older, ancient = small absolute "
+        "numbers, next, +5, beyond the window, replays of anything broadcast before, wrong key, wrong associated advertising id, bit flips, inner counter, unknown instance id, short); the accessory's own "
+        "state number only grows; oracle = the harness's bookkeeping of the state numbers the CURRENT pairing object has legitimately learned in this process (the regular advertisement known when it was "
+        "loaded or processed for it, else the cache entry it was loaded from, then accepted notifications): nothing is accepted at or below it, outside the window, without a key or before ANY number has "
+        "been learned; the notify histories establish their start number through the same start-up orders in turn (notify/boot/*) and are judged against the harness's own last-accepted number")
 TRUSTED = ["cryptography ChaCha20Poly1305 (full tag truncated to 4 bytes) as the accessory's sealing"]
 ASSUMPTIONS = ["a 32-bit tag is forgeable with probability 2^-32 per candidate: outside the symbolic model",
                "bleak BLEDevice/AdvertisementData are duck-typed mocks; the fall-back poll (_process_disconnected_events) is replaced by a recorder",
                "an authentic notification naming an iid the cached database does not contain raises out of the callback: counted under C19 (callback must not raise), not exercised here",
                "dbhist: the BLE radio is a scripted GATT accessory at the AIOHomeKitBleakClient interface (establish_connection patched); restore_accessories_state is always given the pairing's "
                "own broadcast key and the last accepted state number; the regular advertisement announcing a new configuration number carries the last accepted state number; a GATT re-read the "
-               "controller does not complete ends the history without a verdict (counted as dbhist/replace/gatt-incomplete)"]
+               "controller does not complete ends the history without a verdict (counted as dbhist/replace/gatt-incomplete)",
+               "life: the scanner is played by calling BleController._device_detected with duck-typed device / advertisement objects; there is no radio (establish_connection fails), the catch-up poll a "
+               "regular advertisement requests is the library's own code and ends at once because no connection was ever made; regular advertisements never carry a DECREASING state number (the accessory's "
+               "number only grows) and always configuration number 1; where two sources of the last number disagree and the property does not rank them (stored number above the advertised one; a pairing "
+               "object created anew, without a regular advertisement known, from a cache entry that is behind what its predecessor accepted - accepted notifications are not written to the cache; a state "
+               "number handed over through restore_accessories_state) either is accepted as the reference (counted as life/accepted-below-largest, listed in the notes); a restart is a new process "
+               "whose reference starts from the cache entry"]
 EXPLANATION = "Lean theorems C18_* over the candidate-window automaton with a symbolic partial-tag AEAD (accept => authentic+fresh, reject => unchanged, no replay over histories, value decoding); differential tie through BleController._device_detected"
 
 KEY = bytes(range(32))
@@ -56,7 +70,14 @@ def adv(payload, aid=ADV):
 FORMATS = {"bool": 10, "uint8": 11, "uint16": 12, "uint32": 13, "uint64": 14, "int": 15, "float": 16, "string": 17, "data": 18}
 
 
-def setup(start, with_key=True):
+BOOTS = ("set", "cache", "adv-load", "load-adv", "load-adv-load")
+
+
+def setup(start, with_key=True, boot="set"):
+    """a pairing whose last accepted state number is `start`, reached in one of the orders an application can start up in:
+    set: loaded from the cache, description set by hand; cache: loaded from a cache entry that stores `start`; adv-load: the cache entry is
+    behind (or has no number), the scanner sees the regular advertisement (state number `start`) BEFORE load_pairing; load-adv: after it;
+    load-adv-load: and load_pairing is called again"""
     from aiohomekit.characteristic_cache import CharacteristicCacheMemory
     from aiohomekit.controller.ble.controller import BleController
     from aiohomekit.model import Accessories
@@ -65,17 +86,40 @@ def setup(start, with_key=True):
     chars = [{"iid": iid, "type": CharacteristicsTypes.BRIGHTNESS, "perms": ["pr", "ev"], "format": fmt, "value": None} for fmt, iid in FORMATS.items()]
     accs = Accessories.from_list([{"aid": 1, "services": [{"iid": 1000, "type": ServicesTypes.LIGHTBULB, "characteristics": chars}]}])
     cache = CharacteristicCacheMemory()
-    cache.async_create_or_update_map("AA:BB:CC:DD:EE:FF", 1, accs.serialize(), KEY.hex() if with_key else None, start)
+    stored = start if boot in ("set", "cache") else (start - 3 if start >= 4 else None)
+    cache.async_create_or_update_map("AA:BB:CC:DD:EE:FF", 1, accs.serialize(), KEY.hex() if with_key else None, stored)
     c = BleController(cache)
     pd = {"AccessoryPairingID": "AA:BB:CC:DD:EE:FF", "AccessoryAddress": "AA:BB:CC:DD:EE:FF", "Connection": "BLE", "iOSPairingId": "x", "iOSDeviceLTPK": "00" * 32}
-    p = c.load_pairing("alias", pd)
     log = []
-    p._process_disconnected_events = lambda: log.append("f")
-    p.dispatcher_connect(lambda ev: log.append(ev))
-    # the description (advertised state number) is what _async_notification starts from
-    from aiohomekit.controller.ble.manufacturer_data import HomeKitAdvertisement
-    p.description = HomeKitAdvertisement.from_cache("AA:BB:CC:DD:EE:FF", "aa:bb:cc:dd:ee:ff", 1, start)
+
+    def load():
+        p = c.load_pairing("alias", dict(pd))
+        p._process_disconnected_events = lambda: log.append("f")
+        p.dispatcher_connect(lambda ev: log.append(ev))
+        return p
+    if boot == "adv-load":
+        c._device_detected(*_life_regular(start, "AA:BB:CC:DD:EE:FF"))
+        p = load()
+    elif boot in ("load-adv", "load-adv-load"):
+        p = load()
+        c._device_detected(*_life_regular(start, "AA:BB:CC:DD:EE:FF"))
+        if boot == "load-adv-load":
+            p = load()
+    else:
+        p = load()
+        if boot == "set":
+            # the description (advertised state number) is what _async_notification starts from
+            from aiohomekit.controller.ble.manufacturer_data import HomeKitAdvertisement
+            p.description = HomeKitAdvertisement.from_cache("AA:BB:CC:DD:EE:FF", "aa:bb:cc:dd:ee:ff", 1, start)
+    del log[:]      # what the start-up itself caused (a catch-up poll request) is not part of the history
     return c, p, log
+
+
+def boots_for(start):
+    """the start-up orders that establish `start` as the last state number (a regular advertisement carries 16 bits; a stored 0 counts as no stored number)"""
+    if start > 0xFFFF:
+        return ("set",)
+    return BOOTS if start > 0 else tuple(b for b in BOOTS if b != "cache")
 
 
 def reference_value(fmt, raw):
@@ -1042,22 +1086,497 @@ def db_stream(ctx, driver):
     compare_with_model(ctx, "dbvalue", vcases, vouts, vlines, driver)
 
 
+# ================================================================ the pairing's LIFE CYCLE around notifications
+# The histories above start from a pairing that is completely set up.  Here the history starts with the application process: the
+# controller is created over a characteristic cache entry (with / without a state number, with / without a broadcast key, the stored
+# number below / equal to / above what the accessory announces), the scanner sees regular advertisements before or after
+# load_pairing, load_pairing is called AGAIN on the same controller, the application hands over a stored state
+# (restore_accessories_state), the process is restarted (a new controller over the same cache) - in every order the public API
+# allows, interleaved with the accessory's events and the advertisement alphabet of the other streams.
+#
+# The accessory is played by the harness: its global state number only grows; a regular advertisement carries the current number, an
+# event increments it and broadcasts an encrypted notification; everything it ever broadcast may be replayed by anybody.
+#
+# Oracle (harness bookkeeping only): S = the state numbers the current pairing object may legitimately regard as "last accepted":
+#   * loaded while the controller knows the accessory's regular advertisement: what that advertisement (or a notification accepted
+#     since) said; loaded without one: the state number of the cache entry it is loaded from (None: it has learned nothing);
+#   * a regular advertisement processed for it: that number; an accepted notification: that number;
+#   * where two sources disagree and the property does not say which one wins (a stored number ABOVE the advertised one, a pairing
+#     object created anew from a cache entry that is behind what its predecessor accepted, a stored state handed over by the
+#     application) every candidate stays in S - no verdict is drawn from the difference (counted as life/accepted-below-largest).
+# An encrypted advertisement may change state or reach listeners only if it is authentic under the key the pairing was given and
+# L < g < L+100 for some L in S; with S = {None} (nothing learned yet) or without a key nothing may be accepted.
+LIFE_PID = "AA:BB:CC:DD:EE:FF"
+_LIFE = {}
+
+
+def _life_db():
+    if "db" not in _LIFE:
+        from aiohomekit.model import Accessories
+        from aiohomekit.model.characteristics import CharacteristicsTypes
+        from aiohomekit.model.services import ServicesTypes
+        chars = [{"iid": iid, "type": CharacteristicsTypes.BRIGHTNESS, "perms": ["pr", "ev"], "format": fmt, "value": None} for fmt, iid in FORMATS.items()]
+        accs = Accessories.from_list([{"aid": 1, "services": [{"iid": 1000, "type": ServicesTypes.LIGHTBULB, "characteristics": chars}]}])
+        _LIFE["db"] = json.dumps(accs.serialize())
+    return json.loads(_LIFE["db"])
+
+
+def _life_regular(gsn, pid):
+    """the accessory's regular (unencrypted) advertisement: type 0x06 | length | status flags | device id | category | state number | configuration number | version | setup hash"""
+    from types import SimpleNamespace
+    return (SimpleNamespace(name="dev", address=pid, details=None),
+            SimpleNamespace(manufacturer_data={76: bytes([0x06, 0x31, 0x00]) + ADV + struct.pack("<HHBB", 5, gsn & 0xFFFF, 1, 2) + bytes(4)}, rssi=-40, local_name="dev",
+                            service_data={}, service_uuids=[], tx_power=-127, platform_data=()))
+
+
+def _life_encrypted(payload, advid):
+    """an encrypted (type 0x11) advertisement as the scanner hands it to the controller"""
+    from types import SimpleNamespace
+    return (SimpleNamespace(name="dev", address=LIFE_PID, details=None),
+            SimpleNamespace(manufacturer_data={76: bytes([0x11, 0x36]) + advid + payload}, rssi=-40, local_name="dev", service_data={}, service_uuids=[], tx_power=-127, platform_data=()))
+
+
+def _ints(S):
+    return [x for x in S if x is not None]
+
+
+def _learned(S, g):
+    """the pairing is told a state number by a source the property does not rank against what it has (regular advertisement,
+    state handed over by the application): at or above everything it had, it IS the last number; below, both stay candidates"""
+    if all(x <= g for x in _ints(S)):
+        return {g}
+    return set(_ints(S)) | {g}
+
+
+async def _run_life(case, dev=False):
+    """one life-cycle history.  Returns (violations [(signature, what, event index)], stats, observations)"""
+    import asyncio
+    from collections import Counter
+
+    from aiohomekit.characteristic_cache import CharacteristicCacheMemory
+    from aiohomekit.controller.ble.controller import BleController
+    viol, stats, obs = [], Counter(), []
+    pid = LIFE_PID.lower() if case.get("lower") else LIFE_PID
+    pd = {"AccessoryPairingID": pid, "AccessoryAddress": LIFE_PID, "Connection": "BLE", "iOSPairingId": "x", "iOSDeviceLTPK": "00" * 32}
+    fmt_of = {iid: f for f, iid in FORMATS.items()}
+    cache = CharacteristicCacheMemory()       # the storage the application provides: it outlives the controller processes
+    cache.async_create_or_update_map(pid, 1, _life_db(), KEY.hex() if case["cache"]["key"] else None, case["cache"]["state"])
+    ctrl = BleController(cache)
+    p = None            # the current pairing object
+    S = None            # candidates for its last accepted state number (see above)
+    D = None            # the same for what the controller's scanner knows about the accessory (None: nothing seen in this process)
+    may_key = False     # has the current pairing object been given the broadcast key
+    log = []            # every listener call, of every pairing object of every process
+    gen = [0]
+
+    def state():
+        return p.description.state_num if p is not None and p.description else None
+
+    def bad(sig, what, idx):
+        viol.append((sig, what, idx))
+
+    for idx, ev in enumerate(case["events"]):
+        kind = ev[0]
+        tag = f"life-cycle event #{idx} {ev} after {case['events'][:idx]} (cache entry at start: {case['cache']})"
+        try:
+            if kind == "restart":       # the application process ends; a new one starts over the same cache
+                ctrl = BleController(cache)
+                p, S, D, may_key = None, None, None, False
+                stats["restart"] += 1
+                continue
+            if kind == "load":
+                entry = cache.get_map(pid) or {}
+                c, k = entry.get("state_num"), entry.get("broadcast_key")
+                p = ctrl.load_pairing("alias", dict(pd))
+                gen[0] += 1
+                p.dispatcher_connect((lambda n: lambda e: log.append((n, e)))(gen[0]))
+                may_key = bool(k)
+                if D is not None:
+                    # the scanner has seen the accessory: the pairing starts from what the accessory said (and what was accepted since)
+                    S = set(D)
+                    top = max(_ints(S))
+                    if isinstance(c, int) and c > top:
+                        S.add(c)        # the stored number is ABOVE what the accessory announces: the property does not say which one wins
+                    D = S
+                    stats["load/after-advertisement/" + ("no-stored-number" if not c else "stored-below" if c < top else "stored-equal" if c == top else "stored-above")] += 1
+                else:
+                    new = {None} if c is None else {None, 0} if c == 0 else {c}
+                    stats["load/from-cache/" + ("again" if S is not None else "first") + ("/no-stored-number" if not c else "")] += 1
+                    S = new if S is None else (S | new)
+                stats["load/" + ("with-key" if k else "without-key")] += 1
+                if dev and state() not in S:
+                    obs.append(f"DEV {tag}: library at {state()}, candidates {S}")
+                continue
+            if kind == "adv":
+                ctrl._device_detected(*_life_regular(ev[1], LIFE_PID))
+                await asyncio.sleep(0)
+                if p is not None:
+                    S = _learned(S, ev[1])
+                    D = S
+                    stats["regular/for-pairing"] += 1
+                else:
+                    D = _learned(D, ev[1]) if D is not None else {ev[1]}
+                    stats["regular/before-load"] += 1
+                if dev and p is not None and state() not in S:
+                    obs.append(f"DEV {tag}: library at {state()}, candidates {S}")
+                continue
+            if kind == "restore":
+                if p is None:
+                    continue
+                p.restore_accessories_state(_life_db(), 1, KEY if ev[2] else None, ev[1])
+                if isinstance(ev[1], int) and all(x is None or x < ev[1] for x in S):
+                    S = S | {ev[1]}
+                    if D is not None:
+                        D = S
+                may_key = may_key or bool(ev[2])
+                stats["restore"] += 1
+                continue
+        except Exception as e:  # noqa: BLE001 - library code on valid input
+            bad("notify/" + type(e).__name__, f"{tag}: raised {type(e).__name__}: {e}", idx)
+            break
+        # ---- an encrypted advertisement
+        g = ev[1] if kind != "S" else None
+        authentic = False
+        iid = None
+        if kind == "G":
+            _, g, inner, iid, rawhex = ev
+            raw = b"" if rawhex == "-" else bytes.fromhex(rawhex)
+            d, a = _life_encrypted(seal(g, iid, raw, inner=inner), ADV)
+            authentic = 0 <= g <= 0xFFFF and ((inner if inner is not None else g) & 0xFFFF) == g
+        elif kind == "K":       # sealed under a key that is not the pairing's
+            d, a = _life_encrypted(seal(g, ev[2], b"\x01", k=bytes(32)), ADV)
+        elif kind == "A":       # the right key, but sealed for another advertising identifier
+            d, a = _life_encrypted(seal(g, ev[2], b"\x01", aid=OTHER), ADV)
+        elif kind == "B":
+            x = bytearray(seal(g, ev[2], b"\x07"))
+            x[ev[3] // 8 % len(x)] ^= 1 << (ev[3] % 8)
+            d, a = _life_encrypted(bytes(x), ADV)
+        elif kind == "O":       # an accessory nobody is paired with
+            d, a = _life_encrypted(seal(g, ev[2], b"\x01", aid=OTHER), OTHER)
+        else:
+            d, a = _life_encrypted(b"" if ev[1] == "-" else bytes.fromhex(ev[1]), ADV)
+        before = state()
+        n0 = len(log)
+        try:
+            ctrl._device_detected(d, a)
+            await asyncio.sleep(0)
+        except Exception as e:  # noqa: BLE001
+            bad("notify/" + type(e).__name__, f"{tag}: _device_detected raised {type(e).__name__}: {e}", idx)
+            break
+        new = log[n0:]
+        after = state()
+        stats["adv/" + kind] += 1
+        if p is None:
+            if new:
+                bad("notify/accepted", f"{tag}: reached listeners {new} although no pairing is loaded in this process", idx)
+            continue
+        allowed = may_key and authentic and any(L < g < L + 100 for L in _ints(S))
+        if not new and after == before:
+            stats["ignored" + ("/though-acceptable" if allowed else "")] += 1
+            continue
+        cand = "nothing (no state number learned yet)" if not _ints(S) else "/".join(map(str, sorted(_ints(S))))
+        if not allowed:
+            why = ("the pairing was never given a broadcast key" if not may_key else "it does not authenticate" if not authentic else
+                   f"the last state number the pairing has learned is {cand}")
+            if new:
+                bad("notify/accepted", f"{tag}: delivered {new[0][1]} (state {before}->{after}) although {why}", idx)
+            else:
+                bad("notify/state-changed", f"{tag}: changed the state number {before}->{after} although {why}", idx)
+            break
+        # ---- acceptable: then it must be accepted properly
+        if after != g:
+            bad("notify/accepted" if new else "notify/state-changed", f"{tag}: authentic and fresh, {'delivered' if new else 'not delivered'}, but the state number went {before}->{after}, not to {g}", idx)
+            break
+        if g <= max(_ints(S)):
+            stats["accepted-below-largest"] += 1
+            if len(obs) < 3:
+                obs.append(f"event #{idx} {ev} after {case['events'][:idx]} (cache {case['cache']}): accepted although the pairing (or its predecessor in this process) had learned {cand}")
+        S = {g}
+        if D is not None:
+            D = S
+        stats["accepted"] += 1
+        if iid in fmt_of:
+            fmt = fmt_of[iid]
+            mine = [e for n, e in new if n == gen[0]]
+            if len(mine) != 1:
+                bad("notify/listener-missed", f"{tag}: accepted, but the listener connected to the current pairing object was called {len(mine)} times", idx)
+            for _, e in new:
+                if not (isinstance(e, dict) and list(e) == [(1, iid)] and isinstance(e[(1, iid)], dict) and "value" in e[(1, iid)]):
+                    bad("notify/accepted", f"{tag}: delivered under {list(e) if isinstance(e, dict) else e!r}, expected [(1, {iid})]", idx)
+                elif not value_matches(fmt, raw, e[(1, iid)]["value"]):
+                    bad("notify/wrong-value", f"{tag}: instance id {iid} is {fmt}; accessory sealed {hx(raw)}, listeners got {e[(1, iid)]['value']!r}", idx)
+            stats["delivered/" + fmt] += 1
+        elif new:
+            bad("notify/unknown-iid-delivered", f"{tag}: delivered {new[0][1]} for an instance id the database does not contain", idx)
+        else:
+            stats["silent-unknown-iid"] += 1
+        if viol:
+            break
+    # whatever the library left running (nothing should be: there is no radio) is stopped
+    left = [t for t in asyncio.all_tasks() if t is not asyncio.current_task()]
+    if left:
+        await asyncio.sleep(0)
+        for t in [t for t in left if not t.done()]:
+            t.cancel()
+        await asyncio.sleep(0)
+    return viol, stats, obs
+
+
+def run_life_history(case, loop=None, dev=False):
+    import asyncio
+    from unittest import mock
+
+    from bleak.exc import BleakError
+
+    async def no_radio(*a, **k):
+        raise BleakError("no radio in this check")
+    if loop is not None:        # the caller owns the loop and has taken the radio away (life_stream)
+        return loop.run_until_complete(_run_life(case, dev))
+    loop = asyncio.new_event_loop()
+    try:
+        with mock.patch("aiohomekit.controller.ble.pairing.establish_connection", no_radio):
+            return loop.run_until_complete(_run_life(case, dev))
+    finally:
+        loop.close()
+
+
+LIFE_NOTIFY = ("ev", "ev5", "far", "same", "old", "old1", "ancient", "replay", "wrongkey", "aad", "bitflip", "innerbad", "otherid", "short", "unknown")
+
+
+def realise_life(rng, acc0, cstate, ckey, syms, lower=False, label=None):
+    """symbols -> a self-contained history with absolute numbers.  cstate: None | 'zero' | offset of the stored state number from the
+    accessory's number at the start"""
+    acc = acc0
+    issued = []         # everything the accessory has broadcast so far
+    evs = []
+
+    def genuine(g, iid=None, inner=None):
+        fmt = rng.choice(ALL_FORMATS)
+        e = ["G", g, inner, FORMATS[fmt] if iid is None else iid, hx(gen_raw(rng, fmt)) or "-"]
+        return e
+
+    def issue(g):
+        for e in issued:
+            if e[1] == g:
+                return list(e)      # the accessory repeats its broadcasts
+        e = genuine(g)
+        issued.append(e)
+        return list(e)
+    for s in syms:
+        iid = FORMATS[rng.choice(ALL_FORMATS)]
+        if s == "adv":
+            evs.append(["adv", acc])
+        elif s in ("load", "restart"):
+            evs.append([s])
+        elif s == "jump":           # the accessory's state changes without a broadcast (a connected controller, an unsubscribed characteristic)
+            acc += 3
+        elif s.startswith("restore"):
+            _, rel, k = s.split(":")
+            evs.append(["restore", None if rel == "n" else max(acc + int(rel), 0), k == "1"])
+        elif s == "ev":
+            acc += 1
+            evs.append(issue(acc))
+        elif s == "ev5":
+            acc += 5
+            evs.append(issue(acc))
+        elif s == "far":
+            acc += 150
+            evs.append(issue(acc))
+        elif s == "same":
+            evs.append(issue(acc))
+        elif s == "old":
+            evs.append(issue(max(acc - 2, 1)))
+        elif s == "old1":
+            evs.append(issue(max(acc - 1, 1)))
+        elif s == "ancient":        # broadcast long ago: a small absolute state number
+            evs.append(issue(rng.randrange(1, max(2, min(acc, 100)))))
+        elif s == "replay":
+            evs.append(list(rng.choice(issued)) if issued else issue(acc))
+        elif s == "unknown":        # authentic, for an instance id the database does not have
+            acc += 1
+            e = genuine(acc, iid=rng.choice([999, 950]))
+            issued.append(e)
+            evs.append(list(e))
+        elif s == "wrongkey":
+            evs.append(["K", acc + 1, iid])
+        elif s == "aad":
+            evs.append(["A", acc + 1, iid])
+        elif s == "bitflip":
+            evs.append(["B", acc + rng.choice([0, 1]), iid, rng.randrange(16 * 8)])
+        elif s == "innerbad":
+            evs.append(["G", acc + 1, acc + rng.choice([0, 2, 3]), iid, "0b"])
+        elif s == "otherid":
+            evs.append(["O", acc + 1, iid])
+        elif s == "short":
+            evs.append(["S", hx(bytes(rng.randrange(256) for _ in range(rng.randrange(0, 12)))) or "-"])
+        else:
+            raise ValueError(s)
+    state = None if cstate is None else 0 if cstate == "zero" else max(acc0 + cstate, 0)
+    case = {"stream": "life", "cache": {"state": state, "key": bool(ckey)}, "events": evs}
+    if lower:
+        case["lower"] = True
+    if label:
+        case["label"] = label
+    return case
+
+
+LIFE_CYCLE = ("adv", "load", "restart", "ev", "jump")
+
+
+def life_exhaustive(ctx):
+    """every order of {regular advertisement, load_pairing (first / again), restart, accessory event with / without broadcast} to a depth,
+    from every kind of cache entry, each followed by probes: a repeat of the accessory's latest broadcast, its next event, a repeat of that,
+    load_pairing again and a repeat of what was accepted before it, and (for every fifth history) an older / ancient broadcast"""
+    rng = ctx.rng
+    out = []
+    depth = ctx.budget(3, 4)
+    variants = [(12, None, True, depth), (12, "zero", True, depth), (12, -5, True, depth), (12, 0, True, depth), (12, 5, True, 2),
+                (300, None, True, depth - 1), (300, -5, True, depth), (300, 0, True, depth - 1), (300, 5, True, 2),
+                (45, -5, False, 2), (45, None, False, 2), (40000, -120, True, 2)]
+    k = 0
+    for acc0, cstate, ckey, dmax in variants:
+        for d in range(1, dmax + 1):
+            for seq in itertools.product(LIFE_CYCLE, repeat=d):
+                if seq[0] == "restart" or any(a == b and a in ("restart", "adv") for a, b in zip(seq, seq[1:])):
+                    continue        # a restart of a process in which nothing has happened / twice the same thing
+                k += 1
+                loaded = False
+                for s in seq:
+                    loaded = (loaded or s == "load") and s != "restart"
+                # probes: (an older / ancient broadcast,) a repeat of the latest broadcast, the next event, load_pairing AGAIN, a repeat of what was just accepted
+                tail = ([] if loaded else ["load"]) + (["old" if k % 10 else "ancient"] if k % 5 == 0 and cstate != 5 else []) + ["same"] + (["adv"] if cstate == 5 or acc0 > 1000 else []) + ["ev", "load", "same"]
+                out.append(realise_life(rng, acc0, cstate, ckey, list(seq) + tail, lower=k % 2 == 0, label=f"{acc0}/{cstate}/{'key' if ckey else 'nokey'}/" + "-".join(seq)))
+    return out
+
+
+def life_directed(ctx):
+    """the application hands over a stored state (restore_accessories_state with / without state number, below / equal / above, with /
+    without key) at every point of a start-up, followed by load_pairing again or a restart, then probes"""
+    rng = ctx.rng
+    out = []
+    k = 0
+    for acc0, cstate in ((12, None), (12, -5), (300, 0), (300, None)):
+        for rel in ("n", "-3", "0", "4"):
+            for key in ("1", "0"):
+                for pre in (["load"], ["adv", "load"], ["load", "adv"], ["load", "ev"], ["adv", "load", "ev"]):
+                    for post in ([], ["load"], ["restart", "load"], ["adv"], ["ev", "load"]):
+                        k += 1
+                        if (k + ctx.seed) % ctx.budget(5, 1):
+                            continue        # quick: a fifth of them, a different one for every seed
+                        syms = pre + [f"restore:{rel}:{key}"] + post + (["old"] if k % 3 == 0 else []) + ["same", "ev", "same"]
+                        out.append(realise_life(rng, acc0, cstate, True, syms, lower=k % 2 == 1, label=f"restore/{acc0}/{cstate}/{rel}/{key}/" + "-".join(pre + ["R"] + post)))
+    return out
+
+
+def gen_life_history(rng, long=False):
+    """a random life cycle: cache entry, start-up in any order, then the advertisement alphabet interleaved with further regular
+    advertisements, reloads, restarts and restores"""
+    acc0 = rng.choice([3, 12, 45, 99, 101, 300, 40000])
+    cstate = rng.choice([None, None, "zero", 0, 0, -1, -5, -5, -60, -150, 5])
+    syms = []
+    for _ in range(rng.randrange(1, 4)):
+        syms.append(rng.choice(["adv", "load", "load", "ev", "jump", "same", "ancient", "adv"]))
+    if "load" not in syms:
+        syms.append("load")
+    for _ in range(rng.randrange(3, 30 if long else 11)):
+        r = rng.random()
+        if r < 0.12:
+            syms.append("adv")
+        elif r < 0.24:
+            syms.append("load")
+        elif r < 0.28:
+            syms += ["restart"] + rng.choice([["load"], ["adv", "load"], ["load", "adv"], ["same", "load"]])
+        elif r < 0.33:
+            syms.append("jump")
+        elif r < 0.39:
+            syms.append(f"restore:{rng.choice(['n', '-3', '0', '4', '-40'])}:{rng.choice('110')}")
+        elif r < 0.60:
+            syms.append("ev")
+        elif r < 0.72:
+            syms.append("same")
+        else:
+            syms.append(rng.choice(LIFE_NOTIFY))
+    return realise_life(rng, acc0, cstate, rng.random() > 0.08, syms, lower=rng.random() < 0.5)
+
+
+def life_stream(ctx):
+    import asyncio
+    import os
+    dev = bool(os.environ.get("VERIF_C18_DEV"))
+    cases = life_exhaustive(ctx) + life_directed(ctx) + [gen_life_history(ctx.rng, ctx.thorough()) for _ in range(ctx.budget(100, 3000))]
+    from unittest import mock
+
+    from bleak.exc import BleakError
+
+    async def no_radio(*a, **k):
+        raise BleakError("no radio in this check")
+    loop = asyncio.new_event_loop()
+    observations = []
+    radio = mock.patch("aiohomekit.controller.ble.pairing.establish_connection", no_radio)
+    radio.start()
+    try:
+        for case in cases:
+            try:
+                viol, stats, obs = run_life_history(case, loop, dev)
+            except Exception as e:  # noqa: BLE001 - creating the controller over the cache ...: library code on valid input
+                import traceback
+                where = traceback.extract_tb(e.__traceback__)[-1]
+                viol, stats, obs = [("notify/" + type(e).__name__, f"the life-cycle history could not be run: {type(e).__name__}: {e} (at {where.filename}:{where.lineno})", len(case["events"]))], {}, []
+            ctx.evaluations += 1
+            ctx.nontrivial.add(("life", hashlib.sha1(json.dumps(case, sort_keys=True).encode()).hexdigest()))
+            ctx.dist["life"] += 1
+            for key, n in stats.items():
+                ctx.dist["life/" + key] += n
+            observations += obs
+            seen = set()
+            for sig, what, idx in viol:
+                if sig not in seen:     # the failing input is the history up to that event
+                    seen.add(sig)
+                    ctx.violation(sig, what, dict(case, events=case["events"][:idx + 1]))
+    finally:
+        radio.stop()
+        loop.close()
+    ctx.sample({k: (v if len(str(v)) < 700 else str(v)[:700] + "...") for k, v in cases[len(cases) // 2].items()})
+    if dev:
+        for o in observations:
+            print(o)
+    if ctx.dist["life/accepted-below-largest"]:
+        ctx.notes.append(f"life: {ctx.dist['life/accepted-below-largest']} notifications were accepted below the largest state number learned in the process, where the property does not say which "
+                         f"source of the last number wins (stored number above the advertised one; a pairing object created anew from a cache entry that does not record accepted notifications; "
+                         f"a state handed over by the application) - no verdict; e.g. {[o for o in observations if not o.startswith('DEV')][:2]}")
+
+
 def run(ctx: Ctx, driver: Driver):
     rng = ctx.rng
     cases, outs, lines = [], [], []
     vcases, vouts, vlines = [], [], []
     fmt_of = {iid: f for f, iid in FORMATS.items()}
 
-    def history(start, hist, with_key=True):
+    nboot = [0]
+
+    def history(start, hist, with_key=True, boot=None):
         """hist: list of symbolic advertisements: ('G', g, inner, iid, value) | ('K', g, iid) wrong key | ('O', g, iid) other adv id | ('B', g, iid, bit) bitflip | ('S', n) short payload |
-        ('T', g, iid, k) genuine with the tag cut to k bytes"""
-        c, p, log = setup(start, with_key)
+        ('T', g, iid, k) genuine with the tag cut to k bytes.  boot: the start-up order that establishes `start` (None: the next one in turn)"""
+        if boot is None:
+            nboot[0] += 1
+            opts = boots_for(start)
+            boot = opts[nboot[0] % len(opts)]
+        ctx.dist["notify/boot/" + boot] += 1
+        case0 = {"stream": "notify", "start": start, "key": with_key, "boot": boot, "hist": [list(map(str, x)) for x in hist]}
+        try:
+            c, p, log = setup(start, with_key, boot)
+        except Exception as e:  # noqa: BLE001 - library code on valid input
+            ctx.evaluations += 1
+            ctx.violation("notify/" + type(e).__name__, f"start-up order {boot} (state number {start}) raised {type(e).__name__}: {e}", case0)
+            return
         toks, model_toks = [], []
         out = []
         raised = None
+        cur = start         # the harness's own bookkeeping of the last accepted state number, whatever the start-up order
+        lost = False
         for h in hist:
             n0 = len(log)
-            before = p.description.state_num
+            before = p.description.state_num if p.description else None
             if h[0] == "G":
                 _, g, inner, iid, value = h
                 d, a = adv(seal(g, iid, value, inner=inner))
@@ -1086,14 +1605,28 @@ def run(ctx: Ctx, driver: Driver):
                 raised = type(e).__name__
                 break
             new = log[n0:]
-            after = p.description.state_num
+            after = p.description.state_num if p.description else None
+            # independent of the library's idea of the last number: what the start-up order established, then what was legitimately accepted
+            if not lost:
+                fresh = with_key and h[0] == "G" and cur < h[1] < cur + 100 and ((h[2] if h[2] is not None else h[1]) & 0xFFFF) == h[1]
+                got = bool(new and isinstance(new[-1], dict))
+                if got and not fresh:
+                    ctx.violation("notify/accepted", f"start-up order {boot} established {start}, last accepted since: {cur}: advertisement {h[:4]} was delivered ({new[-1]}, library state {before}->{after})", dict(case0))
+                    lost = True
+                elif fresh and after == h[1]:
+                    cur = h[1]
+                elif after != before:
+                    ctx.violation("notify/state-changed", f"start-up order {boot} established {start}, last accepted since: {cur}: advertisement {h[:4]}, not acceptable, moved the library's last state number {before}->{after}", dict(case0))
+                    lost = True
+            if before is None or after is None:
+                break       # no description at all after this start-up (reported above): nothing the window model could be compared with
             if new and isinstance(new[-1], dict):
                 (key, val), = new[-1].items()
                 out.append(f"d:{key[1]}:{model_toks[-1].split(':')[5] if model_toks[-1].startswith('G') else '?'}")
                 # oracle: authentic, fresh, right id, state advanced to it
                 ok = h[0] == "G" and before < h[1] < before + 100 and ((h[2] if h[2] is not None else h[1]) & 0xFFFF) == h[1] and key == (1, h[3]) and after == h[1]
                 if not ok:
-                    ctx.violation("notify/accepted", f"start={start}: advertisement {h[:4]} was delivered (state {before}->{after}, key {key})", {"stream": "notify", "start": start, "hist": [list(map(str, x)) for x in hist]})
+                    ctx.violation("notify/accepted", f"start={start}: advertisement {h[:4]} was delivered (state {before}->{after}, key {key})", dict(case0))
                 if h[0] != "G":
                     continue
                 # value decoding: what listeners get is the value the accessory sealed, read with the characteristic's own width
@@ -1110,11 +1643,11 @@ def run(ctx: Ctx, driver: Driver):
                     # authentic and fresh, but for an instance id the cached database does not know: the state number must advance
                     # (otherwise an older genuine notification stays acceptable), nobody is called
                     if after != h[1]:
-                        ctx.violation("notify/unknown-iid-not-accepted", f"start={start}: authentic fresh advertisement {h[:4]} for an unknown instance id left the state number at {after} - older notifications stay acceptable", {"stream": "notify", "start": start, "hist": [list(map(str, x)) for x in hist]})
+                        ctx.violation("notify/unknown-iid-not-accepted", f"start={start}: authentic fresh advertisement {h[:4]} for an unknown instance id left the state number at {after} - older notifications stay acceptable", dict(case0))
                     out.append("q")
                     continue
                 if after != before:
-                    ctx.violation("notify/state-changed", f"start={start}: rejected advertisement {h[:4]} changed the state number {before}->{after}", {"stream": "notify", "start": start, "hist": [list(map(str, x)) for x in hist]})
+                    ctx.violation("notify/state-changed", f"start={start}: rejected advertisement {h[:4]} changed the state number {before}->{after}", dict(case0))
                 if h[0] == "O":
                     out.append("n")
                 elif h[0] == "S" and h[1] < 6 and with_key:
@@ -1124,10 +1657,12 @@ def run(ctx: Ctx, driver: Driver):
                 else:
                     out.append("i")
         ctx.evaluations += 1
-        case = {"stream": "notify", "start": start, "key": with_key, "hist": [list(map(str, x)) for x in hist]}
+        case = case0
         if raised:
             ctx.violation("notify/" + raised, f"_device_detected raised {raised}", case)
             return
+        if lost or not p.description:
+            return      # reported with its input above
         cases.append(case)
         outs.append(" ".join(out) + f" | {p.description.state_num}")
         lines.append(f"bc.run 1 {start} {1 if with_key else 0} " + " ".join(model_toks))
@@ -1239,6 +1774,8 @@ def run(ctx: Ctx, driver: Driver):
     ctx.sample({k: (v if len(str(v)) < 500 else str(v)[:500] + "...") for k, v in cases[-1].items()})
     compare_with_model(ctx, "notify", cases, outs, lines, driver)
     compare_with_model(ctx, "value", vcases, vouts, vlines, driver)
+    # histories that start with the application process: cache entry, scanner, load_pairing (again), restore, restart
+    life_stream(ctx)
     # histories in which the accessory database of a pairing is replaced between notifications
     db_stream(ctx, driver)
 
@@ -1246,5 +1783,8 @@ def run(ctx: Ctx, driver: Driver):
 def replay(ctx, driver, c):
     if isinstance(c, dict) and c.get("stream") == "dbhist":
         viol, _, _, _ = run_db_history(c)
+        return [{"signature": sig, "what": what} for sig, what, _ in viol] or None
+    if isinstance(c, dict) and c.get("stream") == "life":
+        viol, _, _ = run_life_history(c)
         return [{"signature": sig, "what": what} for sig, what, _ in viol] or None
     return None
